@@ -122,9 +122,11 @@ fn build(ch: &mut Chooser, fmt: &str) -> (Vec<u8>, Meta, Vec<(String, String)>) 
             let mut b = biff8::BBook { date1904: m.is1904, xfs: vec![0, 14], ..Default::default() };
             // the date cell as NUMBER, or as an RK integer with the /100 flag (how a date with a time of day is often stored)
             let rk100 = ch.flag("xls.date-cell-as-rk-integer-div-100");
+            let hs_junk = ch.flag("xls.undefined-bits-of-the-hsState-byte-set");
             for s in &m.sheets {
                 let mut sh = biff8::BSheet::new(&s.name, vec![if rk100 { biff8::BCell::Rk { r: 0, c: 0, xf: 1, rk: (((SERIAL * 100.0).round() as i32 as u32) << 2) | 3 } } else { biff8::BCell::Number { r: 0, c: 0, xf: 1, v: SERIAL } }]);
-                sh.state = match s.vis { SheetVisible::Visible => 0, SheetVisible::Hidden => 1, SheetVisible::VeryHidden => 2 };
+                // hsState is the low two bits of its byte; the other six are undefined and ignored (MS-XLS 2.4.28)
+                sh.state = match s.vis { SheetVisible::Visible => 0, SheetVisible::Hidden => 1, SheetVisible::VeryHidden => 2 } | if hs_junk { 0xC0 } else { 0 };
                 sh.dt = match s.typ { SheetType::MacroSheet => 1, SheetType::ChartSheet => 2, SheetType::Vba => 6, _ => 0 };
                 sh.name_wide = ch.flag("xls.sheet-name-16bit");
                 b.sheets.push(sh);
